@@ -248,3 +248,48 @@ def wrapper_delegation(ctx, fx, trait_suffix="blob_store::traits::BlobStore", in
                               fn.file, fn.line)
     ctx.instance(rule + ".methods", n)
     return n
+
+
+# ------------------------------------------------------------------ R-SIBLING.keylimit
+def key_length_limits(ctx, fx, file, rule="R-SIBLING.keylimit", only=None, min_const=16):
+    """The functions of one back end that bound the length of a key slice by a constant use the same bound: insert accepting a
+    length that lookup refuses leaves a stored key that is reported absent (and is stored again by every re-insert)."""
+    found = []
+    for fid in fx.fn_ids(file):
+        if "::tests::" in fid or "{closure" in fid or (only and not only(fid)):
+            continue
+        fn = Fn(fx.raw(fid))
+        for loc, st in fn.iter_locs():
+            if st[0] != "a" or st[2][0] != "bin" or st[2][1] not in ("Gt", "Ge", "Lt", "Le"):
+                continue
+            op, x, y = st[2][1], st[2][2], st[2][3]
+            if op_const(x) is not None and op_const(y) is None:
+                x, y = y, x
+                op = {"Lt": "Gt", "Le": "Ge", "Gt": "Lt", "Ge": "Le"}[op]
+            k, l = op_const(y), op_local(x)
+            if not k or not isinstance(k[0], int) or k[0] < min_const or l is None:
+                continue
+            _, sites = fn.backslice([l])
+            calls = [s[2]["f"] for s in sites if s[1] == "call"]
+            arith = [s for s in sites if s[1] == "assign" and s[2][2][0] in ("bin", "cast")]
+            if len(calls) != 1 or not calls[0].endswith("slice::<impl [T]>::len") or arith:
+                continue
+            # first length that is refused / not accepted
+            n = {"Gt": k[0] + 1, "Ge": k[0], "Lt": k[0], "Le": k[0] + 1}[op]
+            found.append((fid, n, st[3], fn.file))
+    ctx.instance(rule + ".sites", len(found))
+    if len(found) < 2:
+        return len(found)
+    from collections import Counter
+    common = Counter(n for _, n, _, _ in found).most_common(1)[0][0]
+    for fid, n, ln, f in found:
+        ctx.analysed_fns.add(fid)
+        ok = n == common
+        ctx.obligation(rule, fid, "key length bound agrees with its siblings", ok,
+                       sample={"fn": fid, "line": ln, "first_refused_length": n, "siblings": common})
+        if not ok:
+            ctx.violation(rule, fid, "key length bound differs from its siblings",
+                          "%s draws the line at length %d (line %s) while the other functions of the back end draw it at %d: a key "
+                          "of a length in between is accepted by one operation and refused by the other" %
+                          (fid.rsplit("::", 1)[-1], n, ln, common), f, ln)
+    return len(found)
